@@ -1,7 +1,8 @@
 ------------------------------ MODULE MC_Relay ------------------------------
 EXTENDS Relay
+CONSTANT MaxRecs
 MCNodes == {"A", "R", "T"}
 MCAddrOf == [n \in MCNodes |-> CASE n = "A" -> "a" [] n = "R" -> "r" [] n = "T" -> "t"]
 MCAmRelay == [n \in MCNodes |-> n = "R"]
-Bound == Cardinality(recs["A"]) + Cardinality(recs["R"]) + Cardinality(recs["T"]) <= 2
+Bound == Cardinality(recs["A"]) + Cardinality(recs["R"]) + Cardinality(recs["T"]) <= MaxRecs
 =============================================================================
